@@ -4,11 +4,27 @@ import json, os
 HERE = os.path.dirname(os.path.abspath(__file__))
 props = [json.loads(l) for l in open(os.path.join(HERE, "properties.jsonl"))]
 
+SYMX = "symbolic execution of the real %s on SYMX proxies (uninterpreted functions, symbolic reals) + z3 VC per slot/field; counterexamples replayed concretely through the public API"
+NOTE = "floats modelled as reals (last-ulp rounding outside the claim); loop counts concrete per run (unwinding) over the stated sizes; independent format readers in readers/ are trusted; divisions met on a path are assumed defined"
 CLAIMED = {
-  # id: (technique, level text, level note, design ref)
-  "C01": ("symbolic execution of the real writer on uninterpreted potentials (SYMX proxies) + z3 VCs per header field and table slot; counterexamples replayed concretely",
-          "bounded symbolic model checking: for every nr in the stated set, every cutoff>0 and every potential function (uninterpreted), each slot term equals the specification term; potable route with symbolic form parameters",
-          "floats modelled as reals; nr concrete per run (loop unwinding); independent LAMMPS reader trusted; divisions assumed defined", "3 C01"),
+  "C01": (SYMX % "LAMMPS pair-table writer, Potential.force/gradient and the potable factory route",
+          "bounded symbolic model checking: for every nr in the stated set, every cutoff>0 and every potential function (uninterpreted, with and without analytic derivative), each header field and table slot equals the specification term; potable route with symbolic form parameters",
+          NOTE, "3 C01"),
+  "C02": (SYMX % "DL_POLY TABLE writer and factory; rejection explored over a symbolic Int row count",
+          "bounded symbolic model checking of header, record layout, V(k*delpot) and -r dV/dr slots for all cutoffs/functions; nr%4 rejection for all integers via path partition",
+          NOTE, "3 C02"),
+  "C03": (SYMX % "setfl writer, SetFL_EAMTabulation, EAM builder/factory",
+          "bounded symbolic model checking over element orders, all pair-declaration states (1-3 elements exhaustive, 4 covering), symbolic cutoffs/metadata, uninterpreted functions",
+          NOTE, "3 C03"),
+  "C04": (SYMX % "eam/fs setfl, EEAM TABEAM and Excel FS writers and the FS builder",
+          "every ordered-pair density is a distinct uninterpreted function; slot terms and per-atom cluster densities recomputed by the consumer's rule are compared with the model for all functions and cutoffs",
+          NOTE + "; consumer rules (LAMMPS type2rhor, DL_POLY 'dens A B', Excel 'A->B') as stated in DESIGN", "3 C04"),
+  "C05": (SYMX % "TABEAM writers (EAM and EEAM) and tabulation classes",
+          "declared count vs blocks found, required block set, header fields and value slots as z3 terms for all functions/cutoffs over the stated element layouts and grids",
+          NOTE, "3 C05"),
+  "C19": (SYMX % "GULP, ADP, funcfl and Excel writers",
+          "same slot-level term comparison for the secondary targets (funcfl charge via a sqrt atom with Z>=0, Z^2*27.2*0.529 = r*phi)",
+          NOTE + "; workbook cells read from the openpyxl object", "3 C19"),
 }
 PENDING = "check not built yet in this session (design in DESIGN.md section 3); will be claimed when its harness lands"
 
